@@ -33,6 +33,11 @@ TARGETS = [
     ('datafusion/physical-plan/src/joins/nested_loop_join.rs', ['C05'], r'^\s*self\.state = NLJState::EmitGlobalRightUnmatched;\s*$', 'subst', ('EmitGlobalRightUnmatched', 'Done')),
     ('benchmarks/src/sql_benchmark.rs', ['C46'], r'^\s*let value = lookup_replacement_value\(key, replacement_map, &get_env\)\.or\(default\);\s*$', 'subst',
      (r'lookup_replacement_value\(key, replacement_map, &get_env\)\.or\(default\)', 'default.or(lookup_replacement_value(key, replacement_map, &get_env))')),
+    # round 4 rules (source-struct direction): a translator stops looking at a field of the node it translates
+    ('datafusion/substrait/src/logical_plan/producer/rel/join.rs', ['C37'], r'^\s*to_substrait_join_expr\(join\.on\.clone\(\), join\.null_equality, join\.filter\.clone\(\)\);\s*$', 'subst',
+     (r'join\.null_equality', 'NullEquality::NullEqualsNothing')),
+    ('datafusion/sql/src/unparser/expr.rs', ['C38'], r'^\s*negated: insubq\.negated,\s*$', 'subst', (r'insubq\.negated', 'false')),
+    ('datafusion/physical-plan/src/sorts/sort_preserving_merge.rs', ['C36'], r'^\s*\.with_fetch\(self\.fetch\(\)\),\s*$', 'subst', (r'\.with_fetch\(self\.fetch\(\)\)', '.with_fetch(self.fetch()).with_round_robin_repartition(self.fetch().is_none())')),
     ('datafusion/expr/src/predicate_bounds.rs', ['C30'], r'^\s*\| Expr::SimilarTo\(_\) => self\.is_null_if_any_child_null\(expr\),\s*$', 'subst', (r'\| Expr::SimilarTo\(_\)', '| Expr::SimilarTo(_) | Expr::TryCast(_)')),
 ]
 OPS = ['Eq', 'NotEq', 'Lt', 'LtEq', 'Gt', 'GtEq']
@@ -78,7 +83,11 @@ def main():
     from facts import Facts
     import common
     ms = mutants(repo, rng)
+    only = os.environ.get('MUTSWEEP_ONLY')
+    if only:
+        ms = [m for m in ms if re.search(only, m['file'])]
     rng.shuffle(ms)
+    kf = json.load(open(os.path.join(V, 'known_findings.json'))).get('findings', [])
     # spread over files
     seen, pick = {}, []
     for m in ms:
@@ -114,7 +123,10 @@ def main():
                     probe.known = []
                     try:
                         mod.run(probe)
-                        res['fired'][c] = sorted({v['rule'] for v in probe.viol})
+                        # what the rule already reports on the unmutated tree (known findings) is not a detection of the mutant
+                        base = set(k['key'] for k in kf if k.get('property') == c)
+                        res['fired'][c] = sorted({v['rule'] for v in probe.viol if v['key'] not in base})
+                        res.setdefault('keys', {})[c] = sorted(v['key'] for v in probe.viol if v['key'] not in base)[:6]
                     except Exception as e:
                         res['fired'][c] = ['internal error: %s' % str(e)[:80]]
                 res['detected'] = any(v for v in res['fired'].values())
